@@ -181,3 +181,78 @@ func VerifC04_DPUBNonNumeric() {
 	verifrt.Assert(e != nil, "dpub-non-numeric-creates-nothing")
 	verifrt.Reach("non-numeric", true)
 }
+
+// TOUCH from any valid channel state (shares the answer-step harness): the new deadline is
+// min(now+msg_timeout, delivery time+max-msg-timeout) - restarted but never beyond the cap.
+func VerifC04_TouchCap() { verifrt.Atomic(func() { verifAnswerStep(2) }) }
+
+// The timeout / deferred scans from any valid state, for any scan instant t: exactly the
+// entries whose deadline is <= t leave (never early), each is back on the queue exactly once,
+// everything else is untouched, and the heaps stay valid.
+func VerifC04_ScanStep() { verifrt.Atomic(verifScanStep) }
+
+func verifScanStep() {
+	o := verifOpts()
+	o.MemQueueSize = 8
+	st := verifNewChan(o, "ch")
+	a := st.addClient(1)
+	nF := verifrt.Choice("nF", verifrt.Bound("inflight", 3, 4))
+	nD := verifrt.Choice("nD", verifrt.Bound("deferred", 3, 4))
+	st.populate(nF, nD, 0, 0, 2) // owner 2 = a connection that has gone away
+	t := verifrt.Int64("t")
+	preTimeouts := st.c.timeoutCount
+	preA := a.InFlightCount
+	var duePri [4]bool
+	dueOwnedByA := int64(0)
+	nDue := 0
+	for i, m := range st.inFlight {
+		if m.pri <= t {
+			duePri[i] = true
+			nDue++
+			if m.clientID == 1 {
+				dueOwnedByA++
+			}
+		}
+	}
+	inflightScan := verifrt.Choice("scan", 2) == 0
+	if inflightScan {
+		dirty := st.c.processInFlightQueue(t)
+		st.assertInvariants("post-scan")
+		verifrt.Assert(dirty == (nDue > 0), "scan-dirty-iff-something-due")
+		for i, m := range st.inFlight {
+			w := st.locate(m.ID)
+			if duePri[i] {
+				verifrt.Assert(w.inFlight == 0 && w.heap == 0, "timed-out-message-leaves-in-flight")
+				verifrt.Assert(w.memory+w.backend == 1 && w.deferred == 0, "timed-out-message-requeued-once")
+			} else {
+				verifrt.Assert(w.inFlight == 1 && w.heap == 1 && w.total() == 1, "unexpired-message-stays-in-flight")
+			}
+		}
+		verifrt.Assert(st.c.timeoutCount == preTimeouts+uint64(nDue), "timeout-counter-counts-each-expiry")
+		verifrt.Assert(a.InFlightCount == preA-dueOwnedByA, "owner-in-flight-count-drops-per-expiry")
+		verifrt.Assert(len(st.c.deferredMessages) == nD, "in-flight-scan-leaves-deferred")
+		verifrt.Reach("some-expired-some-not", nDue > 0 && nDue < nF)
+	} else {
+		nRel := 0
+		var rel [4]bool
+		for i, m := range st.deferred {
+			if m.pri <= t {
+				rel[i] = true
+				nRel++
+			}
+		}
+		dirty := st.c.processDeferredQueue(t)
+		st.assertInvariants("post-scan")
+		verifrt.Assert(dirty == (nRel > 0), "deferred-scan-dirty-iff-something-due")
+		for i, m := range st.deferred {
+			w := st.locate(m.ID)
+			if rel[i] {
+				verifrt.Assert(w.deferred == 0 && w.memory+w.backend == 1, "released-message-queued-once")
+			} else {
+				verifrt.Assert(w.deferred == 1 && w.total() == 1, "unreleased-message-stays-deferred")
+			}
+		}
+		verifrt.Assert(len(st.c.inFlightMessages) == nF, "deferred-scan-leaves-in-flight")
+		verifrt.Reach("some-released-some-not", nRel > 0 && nRel < nD)
+	}
+}
